@@ -179,6 +179,16 @@ def reassemble(pio, levels, fmt, mode):
     return canvas, present
 
 
+def make_array_holes(arr, mode, y0, y1, x0, x1):
+    if mode in ("F32", "F64", "F16x3"):
+        arr[y0:y1, x0:x1] = np.nan
+    elif mode in ("U8", "I16", "I32"):
+        arr[y0:y1, x0:x1] = 0
+    elif mode == "RGBA":
+        arr[y0:y1, x0:x1] = 0
+    return arr
+
+
 def exec_io(case):
     from toasty.study import StudyTiling, tile_study_image
     from toasty.image import Image
@@ -195,8 +205,50 @@ def exec_io(case):
         arr = (arr + (extra if arr.ndim == 2 else extra[..., None]).astype(arr.dtype) * (1 if arr.dtype != np.float16 else 0)).astype(arr.dtype)
     bmode = "RGBA" if mode in ("RGB", "RGBA") else mode
     sub = case.get("sub")
+    # whole-tile holes: the image's share of a chosen deepest-level tile is made completely undefined, or (float modes) is
+    # filled with non-finite but *defined* values (+-inf, possibly mixed with NaN)
+    if sub is None:
+        p2n_ = ref_p2n(w, h)
+        ox, oy = (p2n_ - w) // 2, (p2n_ - h) // 2
+    else:
+        p2n_ = ref_p2n(sub[0], sub[1])
+        ox, oy = (p2n_ - sub[0]) // 2 + sub[2], (p2n_ - sub[1]) // 2 + sub[3]
+    nt_ = p2n_ // 256
+    fills = set()
+    for fx, fy, fill in case.get("tile_holes", []):
+        tx, ty = fx % nt_, fy % nt_
+        x0, x1 = max(256 * tx - ox, 0), min(256 * tx + 256 - ox, w)
+        y0, y1 = max(256 * ty - oy, 0), min(256 * ty + 256 - oy, h)
+        if x0 >= x1 or y0 >= y1:
+            continue
+        if fill == "undef" or arr.dtype.kind != "f":
+            arr = make_array_holes(arr, mode, y0, y1, x0, x1)
+            if mode != "RGB":
+                fills.add("whole-tile-undefined")
+        else:
+            arr[y0:y1, x0:x1] = {"inf": np.inf, "-inf": -np.inf, "inf+nan": np.nan}[fill]
+            if fill == "inf+nan":
+                arr[y0 : y1 : 2, x0:x1] = np.inf
+            fills.add("whole-tile-nonfinite")
     with fresh_dir("c08-") as d:
         pio = PyramidIO(d, default_format=fmt)
+        nested = case.get("nested")
+        if nested:
+            # re-entrancy: while the first tile of this image is being written, another image of the same mode is tiled
+            # completely (into another directory); nothing of it may leak into this pyramid
+            d2 = os.path.join(d, "nested-other")
+
+            class NestingIO(PyramidIO):
+                _did = False
+
+                def write_image(self, pos, image, **k):
+                    if not NestingIO._did:
+                        NestingIO._did = True
+                        other = make_array(mode, nested[1], nested[0], case["salt"] + 3, [])
+                        tile_study_image(Image.from_array(other, default_format=fmt if fmt != "png" else None), PyramidIO(d2, default_format=fmt))
+                    return super().write_image(pos, image, **k)
+
+            pio = NestingIO(d, default_format=fmt)
         img = Image.from_array(arr.copy(), default_format=fmt if fmt != "png" else None)
         if case.get("previous") and sub is None:
             # the directory already holds the tiles of an earlier image of the same size: nothing of it may survive
@@ -249,8 +301,9 @@ def exec_io(case):
                     raise Violation("existence", f"{what}: tile ({levels},{tx},{ty}) was written but does not overlap the image")
                 if has_defined and (tx, ty) not in present:
                     raise Violation("existence", f"{what}: tile ({levels},{tx},{ty}) holds image pixels but no file was written")
-        other = [f for f in os.listdir(d) if not f.isdigit()]
-    cls = [fmt, mode, "sub-image" if sub else "whole", f"levels{levels}"]
+    cls = [fmt, mode, "sub-image" if sub else "whole", f"levels{levels}"] + sorted(fills)
+    if nested:
+        cls.append("nested-tiling")
     if case.get("previous") and sub is None:
         cls.append("re-tiled-directory")
     if fmt == "fits":
@@ -271,7 +324,11 @@ def strat_io(draw, tier):
     h = draw(io_sizes) if big else draw(st.one_of(st.integers(1, 600), st.sampled_from([255, 256, 257, 511, 512, 513])))
     case = {"format": fmt, "mode": mode, "size": [w, h], "salt": draw(st.integers(0, 20)), "route": draw(st.sampled_from(["func", "builder"])),
             "holes": [[draw(st.integers(0, 40)) for _ in range(4)] + [True] for _ in range(draw(st.integers(0, 2)))],
-            "previous": draw(st.integers(0, 3)) == 0}
+            "previous": draw(st.integers(0, 3)) == 0,
+            "tile_holes": [[draw(st.integers(0, 7)), draw(st.integers(0, 7)), draw(st.sampled_from(["undef", "undef", "inf", "-inf", "inf+nan"]))]
+                           for _ in range(draw(st.sampled_from([0, 0, 1, 2])))]}
+    if draw(st.integers(0, 4)) == 0:
+        case["nested"] = [draw(st.integers(1, 600)), draw(st.integers(1, 600))]
     if draw(st.integers(0, 2)) == 0:
         W = draw(st.integers(w, max(w, 1100)))
         H = draw(st.integers(h, max(h, 1100)))
